@@ -7,8 +7,8 @@
 From Coq Require Import List Arith NArith Bool Lia ZArith.
 Import ListNotations.
 From MMD.gen Require Import Bounds.
-From MMD.model Require Import TableAlignModel.
-From MMD.proofs Require Import TableAlignProofs.
+From MMD.model Require Import TableAlignModel Ambidextrous.
+From MMD.proofs Require Import TableAlignProofs AmbidextrousProofs.
 From MMD.props Require Properties_C19 Properties_C18 Properties_C02 Properties_C13 Properties_C15.
 
 (* table_alignment: size, recording bound and read guards are regenerated from writer.h, writer.c,
@@ -39,6 +39,39 @@ Proof. apply record_unguarded_overflows. vm_compute. lia. Qed.
 Print Assumptions table_alignment_unguarded_refuted.
 
 (* bounds theorems established under other properties, which C01 relies on: *)
+(* mmd_assign_ambidextrous_tokens_in_block, cases STAR and UL (the scans to the left and to the right of an emphasis
+   marker, including the word scans of the "middle of a word" rule): for every text, whatever its bytes and length,
+   and every marker in it, no byte is read before the text or after its terminating NUL, and the size_t offset that
+   t->start - 1 would wrap at the start of the text is never formed.  The model's read is an error value outside
+   [0, length]; the classifiers are the tables regenerated from the compiled char.c (the proof needs from them that
+   NUL is a line ending and is neither a marker nor a word byte). *)
+Theorem ambidextrous_reads_in_bounds :
+  forall (star : bool) (s : list N) (t : nat),
+    nth_error s t = Some (if star then 42%N else 95%N) ->
+    exists can_open can_close, assign star s t = Some (can_open, can_close).
+Proof. intros star s t H. destruct (assign_in_bounds star s t H) as [[o c] E]. eauto. Qed.
+Print Assumptions ambidextrous_reads_in_bounds.
+
+(* the same for every case of the routine that looks at the text around a token - backticks, single and double
+   quotes (with the apostrophe tests that look two bytes ahead), dashes, math delimiters, super- and subscript (with
+   their scans for a partner and for the end of the "x^2" form): for every text and every token (kind, start, len)
+   whose span lies inside the text, no read leaves [0, strlen] *)
+Theorem ambidextrous_all_cases_in_bounds :
+  forall (k : tkind) (s : list N) (start len : nat),
+    (start < length s)%nat -> (start + len <= length s)%nat ->
+    (k = KStar -> nth_error s start = Some 42%N) -> (k = KUl -> nth_error s start = Some 95%N) ->
+    exists r, assign_tok k s start len = Some r.
+Proof. exact assign_tok_in_bounds. Qed.
+Print Assumptions ambidextrous_all_cases_in_bounds.
+
+(* non-vacuity, and the cases the scans are most likely to get wrong: a marker that is the whole text, markers at
+   both ends, runs that reach the start *)
+Example ambidextrous_edge_cases :
+  (assign_all [42%N] = [(0%nat, Some (false, false))]) /\
+  (assign_all [42; 42; 97; 42; 42]%N = [(0%nat, Some (true, false)); (1%nat, Some (true, false)); (3%nat, Some (false, true)); (4%nat, Some (false, true))]) /\
+  (assign_all [95; 97; 95; 98; 95]%N = [(0%nat, Some (true, false)); (2%nat, Some (false, false)); (4%nat, Some (false, true))]).
+Proof. vm_compute. auto. Qed.
+
 (* DString: no out-of-bounds access, no non-termination in any well-formed history *)
 Definition ledger_dstring := Properties_C19.dstring_no_oob_no_hang.
 (* token pool: every allocation is fresh and inside a live slab; no slab freed while in use *)
